@@ -7,7 +7,7 @@ META = {
     "level": "exploration",
     "technique": "online trace checker + probes of model field / current_state / current_state_value / is_active after every step and inside every callback",
     "rule": (
-        "cases = generated machines whose state values are str (incl ''), int (incl 0, negatives), enum "
+        "cases = generated machines whose state values are str (incl ''), int (incl 0, negatives), enum (also States.from_enum(use_enum_instance=True) over an Enum with a falsy member) "
         "members, tuples or mixed, several states sharing one display name, over model shapes default / "
         "class attribute / instance attribute / missing attribute / property-backed / falsy (__len__==0, "
         "__bool__ False), arbitrary state_field, start_value = any state's value, stored values; histories "
@@ -41,7 +41,7 @@ SHAPES = ["attr", "attr", "instance_attr", "missing", "property", "falsy_len", "
 
 
 def assign_values(rng, spec):
-    kind = rng.choice(["default", "str", "int", "int", "enum", "tuple", "mixed"])
+    kind = rng.choice(["default", "str", "int", "int", "enum", "tuple", "mixed", "enum_inst"])
     n = len(spec["states"])
     uid = spec["uid"]
     exprs = [None] * n
@@ -56,6 +56,10 @@ def assign_values(rng, spec):
     elif kind == "enum":
         spec["prelude"] = ["import enum", f"class Color_{uid}(enum.Enum):"] + [f"    m{i} = {i}" for i in range(n)] + [""]
         exprs = [f"Color_{uid}.m{i}" for i in range(n)]
+    elif kind == "enum_inst":
+        # States.from_enum(E, use_enum_instance=True): the values are the Enum members, one of them falsy
+        spec["style"] = {"states": "enum", "enum_inst": rng.choice(spec["states"])["id"]}
+        exprs = [f"StEnum_{uid}.{st['id']}" for st in spec["states"]]
     for st, e in zip(spec["states"], exprs):
         st["value"] = {"expr": e} if e is not None else None
     if rng.random() < 0.3 and n >= 2:
@@ -66,7 +70,18 @@ def assign_values(rng, spec):
     return kind
 
 
+class _Named:
+    def __init__(self, text):
+        self.text = text
+
+    def __repr__(self):
+        return self.text
+
+
 def make_value_of(spec):
+    if spec.get("value_kind") == "enum_inst":
+        table = {st["id"]: _Named("EI." + st["id"]) for st in spec["states"]}
+        return lambda sid: table.get(sid)
     ns = {}
     if spec.get("prelude"):
         exec("\n".join(spec["prelude"]), ns)  # noqa: S102
@@ -164,7 +179,8 @@ def signature(case, ck, log, fault):
     sc = case["scenario"]
     writes = sorted({(s["kind"], s.get("valid", True)) for s in sc.steps if s["op"] == "write"})
     c0 = sc.steps[0]
-    falsy_reached = any(e.get("field") in ("''", "0", "()", "0.0") for e in log if e["k"] == "step" and e.get("op") == "probe")
+    falsy = ("''", "0", "()", "0.0", "EI." + str((sc.spec.get("style") or {}).get("enum_inst")))
+    falsy_reached = any(e.get("field") in falsy for e in log if e["k"] == "step" and e.get("op") == "probe")
     if falsy_reached:
         case["_counters"] = {"falsy_value_states": 1}
     return [(case["kind"], case["shape"], sc.spec["state_field"] != "state", writes, "start" in c0, "stored" in c0,
